@@ -129,7 +129,9 @@ def _kkt_solution(tag, A, b, lower_zero=True):
         c.add_def(Def(gs[j], "kkt-gradient", gs[j] == z3.Sum([At[i][j] * rs[i] for i in range(m)])))
     cons = []
     for j in range(n):
-        cons += [xs[j] >= 0, gs[j] >= 0, xs[j] * gs[j] == 0]
+        # complementarity as an inequality (with x, g >= 0 it is the equality; z3's simplifier would turn
+        # x*g == 0 into a disjunction, which hides the monomial from the linear relaxation)
+        cons += [xs[j] >= 0, gs[j] >= 0, xs[j] * gs[j] <= 0]
     exact = z3.And(*cons)
     abstract = z3.And(*[x >= 0 for x in xs])
     c.add_def(Def(xs, "kkt", exact, abstract))
@@ -258,6 +260,28 @@ def lmfit_minimize(cost, params, args=(), **k):
     names = list(params)
     mins = [params[n].min for n in names]
     x0 = [params[n].value for n in names]
+    # linear cost  A p - b  with all lower bounds 0: the stationarity contract is exactly the KKT contract of nnls
+    if len(args) == 2 and all(mn == 0 for mn in mins):
+        try:
+            A2 = np.asarray(args[0], dtype=object)
+            b2 = np.asarray(args[1], dtype=object).reshape(-1)
+            if A2.ndim == 2 and A2.shape[1] == len(names) and A2.shape[0] == len(b2):
+                probe = [c.newvar(f"lmprobe{j}_") for j in range(len(names))]
+                sp = {n: _SymParam(SymReal(p), mn) for n, p, mn in zip(names, probe, mins)}
+                res = np.asarray(cost(sp, *args), dtype=object).reshape(-1)
+                side = {}
+                linear = len(res) == len(b2)
+                for i in range(len(b2)):
+                    if not linear:
+                        break
+                    want = z3.Sum([lift(A2[i, j]) * probe[j] for j in range(len(names))]) - lift(b2[i])
+                    linear = core._padd(core.poly_of(lift(res[i]), side), core.poly_of(want, side), -1) == {}
+                if linear:
+                    xs, rs, gs = _kkt_solution("lm", A2, b2)
+                    cap("lmfit", args=args, x0=x0, x=xs, r=rs, g=gs, A=A2, b=b2, mins=mins)
+                    return _MinResult({n: _SymParam(x, mn) for n, x, mn in zip(names, xs, mins)})
+        except Inconclusive:
+            pass
     key = ("lm", id(cost.__code__), tuple(lift(v).get_id() for a in args for v in np.asarray(a, dtype=object).flat), len(names))
     memo = c.memo.setdefault("kkt", {})
     if key not in memo:
@@ -272,7 +296,7 @@ def lmfit_minimize(cost, params, args=(), **k):
                 cons.append(g == 0)
             else:
                 lo = z3.RealVal(str(Fraction(float(mn))))
-                cons += [p >= lo, g >= 0, (p - lo) * g == 0]
+                cons += [p >= lo, g >= 0, (p - lo) * g <= 0]
         abstract = z3.And(*[p >= z3.RealVal(str(Fraction(float(mn)))) for p, mn in zip(ps, mins) if mn is not None and mn != -np.inf] or [z3.BoolVal(True)])
         c.add_def(Def(ps, "kkt", z3.And(*cons), abstract))
         memo[key] = ([SymReal(p) for p in ps], None, None)
